@@ -1,0 +1,21 @@
+//go:build verif
+
+package common
+
+// VerifC12Items returns a copy of the elements of the set in insertion order (verification hook, add-only).
+func (s *Set[T]) VerifC12Items() []T {
+	if s == nil {
+		return nil
+	}
+	out := make([]T, len(s.slice))
+	copy(out, s.slice)
+	return out
+}
+
+// VerifC12Size returns the capacity bound of the set (verification hook, add-only).
+func (s *Set[T]) VerifC12Size() int {
+	if s == nil {
+		return 0
+	}
+	return s.size
+}
